@@ -27,6 +27,8 @@ from hypothesis import find as hyp_find
 from hypothesis.errors import NoSuchExample
 
 VERIF = env.VERIF_DIR
+# audit runs against scratch copies write their evidence / found-replays elsewhere
+OUT = os.environ.get("VERIF_OUT_DIR") or VERIF
 
 
 def canon(case) -> str:
@@ -412,7 +414,7 @@ def main(modname: str, argv: list) -> int:
     # shrink each new signature, write replay files
     out_lines = []
     new_viols = merged["viols"]
-    os.makedirs(os.path.join(VERIF, "replays", pid), exist_ok=True)
+    os.makedirs(os.path.join(OUT, "replays", pid), exist_ok=True)
     part_index = {p.name: i for i, p in enumerate(parts)}
     for sig, v in sorted(new_viols.items()):
         best = {"case": v["case"], "msg": v["msg"]}
@@ -430,7 +432,7 @@ def main(modname: str, argv: list) -> int:
                 best = res
         h = hashlib.sha1(sig.encode()).hexdigest()[:12]
         rel = os.path.join("replays", pid, f"found-{h}.json")
-        with open(os.path.join(VERIF, rel), "w", encoding="utf-8") as fh:
+        with open(os.path.join(OUT, rel), "w", encoding="utf-8") as fh:
             json.dump({"property": pid, "signature": sig, "message": best["msg"],
                        "count_in_run": v["count"], "seed": env.SEED, "tier": tier,
                        "case": best["case"]}, fh, ensure_ascii=False, indent=1)
@@ -469,8 +471,8 @@ def main(modname: str, argv: list) -> int:
         "wall_s": round(wall, 2),
         "violations": nviol,
     }
-    os.makedirs(os.path.join(VERIF, "evidence"), exist_ok=True)
-    with open(os.path.join(VERIF, "evidence", f"{pid}.json"), "w", encoding="utf-8") as fh:
+    os.makedirs(os.path.join(OUT, "evidence"), exist_ok=True)
+    with open(os.path.join(OUT, "evidence", f"{pid}.json"), "w", encoding="utf-8") as fh:
         json.dump(ev, fh, ensure_ascii=False, indent=1, default=str)
     print(f"{pid} {tier}: evaluations={merged['evaluations']} "
           f"distinct_nontrivial={len(merged['digests'])} violations={nviol} "
